@@ -67,7 +67,7 @@ def hex_roundtrip(tier, seed, only=None):
 NON_INT_ITEMS = [None, 1.5, 144.0, 'a', '1', b'a', (1,), [1], 2 + 0j, float('nan'), float('inf'), object]
 
 
-@bounded('non-integer-items', ('C02',), 'each representative non-integer value (None, floats incl. 144.0/nan/inf, str, bytes, tuple, list, complex, a class) at positions 0, 1, 2, last of messages of every status family')
+@bounded('non-integer-items', ('C02',), 'each representative non-integer value (None, floats incl. 144.0/nan/inf, str, bytes, tuple, list, complex, a class) at positions 0, 1, 2, last of messages of every status family; numerically equal float/Fraction/Decimal items right after the integer sequence was decoded')
 def non_integer_items(tier, seed, only=None):
     import mido
     fails = []
@@ -101,4 +101,30 @@ def non_integer_items(tier, seed, only=None):
                     if not ok:
                         fails.append(dict(clause='from_bytes with a non-integer item returns a message or raises an exception other than ValueError/TypeError',
                                           inputs=dict(bytes=[repr(x) for x in b]), detail=detail[:200]))
+    # history: the same call must not start to succeed after the numerically EQUAL integer sequence was decoded (memoisation
+    # keyed by ==/hash would do that: 60 == 60.0 == Fraction(60) == Decimal(60))
+    import fractions
+    import decimal
+    for base in bases:
+        if not base or base == [1]:
+            continue
+        try:
+            mido.Message.from_bytes(list(base))
+        except Exception:
+            pass
+        for pos in range(len(base)):
+            for conv in (float, fractions.Fraction, decimal.Decimal):
+                b = list(base)
+                b[pos] = conv(b[pos])
+                n += 1
+                seen.add(('after-equal-ints', tuple(map(repr, b))))
+                try:
+                    r = mido.Message.from_bytes(b)
+                    fails.append(dict(clause='from_bytes with a non-integer item returns a message or raises an exception other than ValueError/TypeError',
+                                      inputs=dict(first=[repr(x) for x in base], then=[repr(x) for x in b]), detail='after decoding the equal integer sequence: returned %r' % (r,)))
+                except (ValueError, TypeError):
+                    pass
+                except Exception as ex:
+                    fails.append(dict(clause='from_bytes with a non-integer item returns a message or raises an exception other than ValueError/TypeError',
+                                      inputs=dict(first=[repr(x) for x in base], then=[repr(x) for x in b]), detail='raised %s: %s' % (type(ex).__name__, ex)))
     return dict(evaluations=n, distinct_nontrivial=len(seen), failures=fails[:20])
